@@ -28,7 +28,7 @@ FAMS = ["single:conv@8", "single:dw@8", "single:maxpool@8", "single:avgpool@8", 
         "single:conv_dil@8", "single:dw_dil@8", "single:avgpool_s4@8", "single:split@8", "single:mul_max@8", "single:relu_chain@8",
         "single:relu@8", "single:abs@8", "single:minimum@8", "single:maximum@8", "single:conv_head",
         "single:slice_conv@8", "single:slice_conv@8", "memcpy_reshape",
-        "single:mean_axis@8", "single:pool_big@8", "single:conv_stride_asym@8", "single:squeeze_expand@8"]
+        "single:mean_axis@8", "single:pool_big@8", "single:conv_stride_asym@8", "single:squeeze_expand@8", "single:ew16"]
 if os.environ.get("VERIF_C01_FAMS"):        # development aid: restrict the generated part to some families
     FAMS = os.environ["VERIF_C01_FAMS"].split(",")
 
